@@ -4,7 +4,7 @@ import ast
 from ..core.model import AnchorError, FuncInfo
 from ..core.cfg import walk_shallow, cfg_of
 from ..core.facts import U, atoms_of
-from ..engine import fn_name, kwarg, local_defs, returns_of, stmts_in
+from ..engine import fn_name, kwarg, local_defs, returns_of, stmts_in, deref
 
 EXPLANATION = (
     "Decides structural clauses of C19: S1 the Pareto filter's dominance test is 'weakly better in all objectives and strictly "
@@ -222,16 +222,17 @@ def s2(ctx, rep):
         front = [k for k, v in d.items() if isinstance(v, ast.Subscript) and U(v.slice) == mv] or ["?"]
     ok = len(front) == 1 and rem is not None
     app = [x for s in body for x in walk_shallow(s) if isinstance(x, ast.Call) and fn_name(x) == "append"]
-    ok = ok and len(app) == 1 and U(app[0].args[0]).startswith(front[0] + "[")
+    a0 = deref(f, app[0].args[0]) if len(app) == 1 else None
+    ok = ok and a0 is not None and U(a0).startswith(front[0] + "[")
     rep.put(ok, "S2", "agreement", "nondominated_sort: each round appends exactly the current front (permuted)", f, app[0] if app else None, "")
     # the permutation inside the front is a permutation of the front (index by epsilon-net ranks of the same front)
     ok = False
     if app:
-        idx = app[0].args[0]
+        idx = deref(f, app[0].args[0])
         while isinstance(idx, ast.Call):
-            idx = idx.func.value
+            idx = deref(f, idx.func.value)
         if isinstance(idx, ast.Subscript):
-            src = d.get(idx.slice.id) if isinstance(idx.slice, ast.Name) else idx.slice
+            src = deref(f, idx.slice)
             ok = isinstance(src, ast.Call) and fn_name(src) == "compute_epsilon_net" and f"[{front[0]}]" in U(src.args[0])
     rep.put(ok, "S2", "agreement", "nondominated_sort: within-layer order is a permutation computed on that layer", f, None, "")
     # the loop runs while rows remain
@@ -333,6 +334,47 @@ def s4(ctx, rep):
     # each trial enters a rung once
     ok = any(n.kind == "test" and f"trial_id in {recv}" in U(n.ast) for n in cfg.nodes)
     rep.put(ok, "S4", "guarded_by", "_Bracket.on_result: a trial already recorded at a rung is skipped", b, None, "")
+    # the scan takes the first rung whose level has been reached and leaves the loop: it lands on the HIGHEST rung reached only
+    # if the rungs are stored highest level first
+    binit = [g_ for g_ in P.functions.values() if g_.qualname.endswith("moasha._Bracket.__init__")]
+    if len(binit) != 1:
+        raise AnchorError("moasha._Bracket.__init__ not found")
+    binit = binit[0]
+    w = [x for x in walk_shallow(binit.node) if isinstance(x, ast.Assign) and U(x.targets[0]) == "self._rungs"]
+    order = None
+    if len(w) == 1:
+        v = deref(binit, w[0].value)
+        if isinstance(v, ast.ListComp) and len(v.generators) == 1:
+            it = deref(binit, v.generators[0].iter)
+            first = v.elt.elts[0] if isinstance(v.elt, ast.Tuple) and v.elt.elts else v.elt
+            src_order = None
+            if isinstance(it, ast.Call) and fn_name(it) == "reversed" and it.args and isinstance(deref(binit, it.args[0]), ast.Call) \
+                    and fn_name(deref(binit, it.args[0])) == "range":
+                src_order = "desc"
+            elif isinstance(it, ast.Call) and fn_name(it) == "range":
+                src_order = "desc" if len(it.args) == 3 and U(it.args[2]).startswith("-") else "asc"
+            elif isinstance(it, ast.ListComp) and len(it.generators) == 1:
+                # a list of milestones built first, then paired with {}
+                it2 = deref(binit, it.generators[0].iter)
+                first = it.elt if U(first) == U(v.generators[0].target) else first
+                if isinstance(it2, ast.Call) and fn_name(it2) == "range":
+                    src_order = "desc" if len(it2.args) == 3 and U(it2.args[2]).startswith("-") else "asc"
+                elif isinstance(it2, ast.Call) and fn_name(it2) == "reversed":
+                    src_order = "desc"
+            # the level grows with the loop variable: min_t * rf ** (k + s)
+            grows = any(isinstance(y, ast.BinOp) and isinstance(y.op, ast.Pow) for y in ast.walk(first))
+            if src_order and grows:
+                order = src_order
+    scan = [s_ for s_ in walk_shallow(b.node) if isinstance(s_, ast.For) and "self._rungs" in U(s_.iter)]
+    if order is None or len(scan) != 1:
+        raise AnchorError("_Bracket: cannot determine the order in which rung levels are stored / scanned")
+    scan_rev = isinstance(scan[0].iter, ast.Call) and fn_name(scan[0].iter) == "reversed"
+    eff = order if not scan_rev else {"asc": "desc", "desc": "asc"}[order]
+    brk = any(isinstance(y, ast.Break) for s_ in scan[0].body for y in ast.walk(s_))
+    rep.put(eff == "desc" and brk, "S4", "agreement", "_Bracket: rungs are scanned from the highest level down and the scan stops at the first rung reached", binit,
+            w[0], f"stored {order}, scanned {'reversed' if scan_rev else 'as stored'}, break after recording",
+            f"rung levels are stored in {order}ending order and scanned {'reversed' if scan_rev else 'as stored'}: the first rung with level <= "
+            "resource is the LOWEST one not yet visited - a trial whose reports skip a level is ranked and recorded at the wrong rung")
     # STOP at max_t
     f = P.method("MOASHA", "on_trial_result")
     cf = cfg_of(f)
